@@ -85,11 +85,12 @@ def reqFamGet : Option Bytes → Except AErr UInt8
   | some [a, _, _, _] => if a = 1 ∨ a = 2 then .ok a else .error .badValue
   | some _ => .error .badSize
 
-/-- EVEN-PORT (`firstBitSet` is `(1<<8)-1 = 0xFF` in the source: any non-zero byte means "reserve") -/
-def evenPortAdd (r : Bool) : Bytes := [if r then 0xFF else 0]
+/-- EVEN-PORT (RFC 5766 §14.6): the R flag is the most significant bit of the one value byte, the other seven bits are
+    reserved (zero when sent, ignored when received).  (Finding F37: the source had `firstBitSet = (1<<8)-1 = 0xFF`.) -/
+def evenPortAdd (r : Bool) : Bytes := [if r then 0x80 else 0]
 def evenPortGet : Option Bytes → Except AErr Bool
   | none => .error .notFound
-  | some [a] => .ok (a &&& 0xFF != 0)
+  | some [a] => .ok (a &&& 0x80 != 0)
   | some _ => .error .badSize
 
 /-- RESERVATION-TOKEN: 8 opaque bytes; AddTo itself checks the size -/
